@@ -56,10 +56,11 @@ def host_values(kind, bsd_mod=None):
     b = bsd_mod or tool.bsd
     if kind == 'Signals':
         return [int(m.value) for m in b.Signals]
+    sockns = b if hasattr(b, 'AddressFamily') else b.socket     # the tree names these itself, or takes the host's
     if kind == 'AddressFamily':
-        return [int(m.value) for m in b.socket.AddressFamily]
+        return [int(m.value) for m in sockns.AddressFamily]
     if kind == 'SocketKind':
-        return [int(m.value) for m in b.socket.SocketKind]
+        return [int(m.value) for m in sockns.SocketKind]
     raise KeyError(kind)
 
 
@@ -85,10 +86,11 @@ def draw(rng, name, bsd_mod=None):
             tgt[idx] = rng.pick(host_values(spec, bsd_mod))
         elif kind == 'sockopt':
             b = bsd_mod or tool.bsd
+            sol = int(b.SOL_SOCKET if hasattr(b, 'SOL_SOCKET') else b.socket.SOL_SOCKET)
             if rng.chance(0.5):
-                tgt[1] = int(b.socket.SOL_SOCKET)
+                tgt[1] = sol
                 tgt[2] = rng.pick([m.value for m in b.SocketOptionName])
-            elif tgt[1] == int(b.socket.SOL_SOCKET):
+            elif tgt[1] == sol:
                 tgt[1] = 6
         elif kind == 'ioctl':
             b = bsd_mod or tool.bsd
